@@ -127,7 +127,7 @@ func genC02Sampled(g *Gen) any {
 	}
 	sc.Start = []uint64{0, 1<<32 - 3, 1<<32 - uint64(n/2), ^uint64(0) - uint64(n) - 1, g.Rng.Uint64() >> 1}[g.Rng.IntN(5)]
 	for k := 0; k < n; k++ {
-		sc.Sizes = append(sc.Sizes, g.Pick(1, 2, 7, 40, 300, 1500, g.Int(1, 16000)))
+		sc.Sizes = append(sc.Sizes, g.Pick(1, 2, 7, 40, 300, 1500, g.Int(1, 16000), 0)) // (0: an empty data frame, as Stream.ReadFrom emits for a reader's (0, nil))
 	}
 	if g.Bool(0.3) {
 		// payloads at and beyond what this build's own sender emits, up to what a
